@@ -411,7 +411,9 @@ func genParams(r *rand.Rand, n int, out *bufio.Writer) {
 		ops := []map[string]any{}
 		for s := 0; s < 6+r.IntN(8); s++ {
 			k := keys[r.IntN(len(keys))]
-			switch r.IntN(11) {
+			switch r.IntN(12) {
+			case 11:
+				ops = append(ops, map[string]any{"op": "stale"})
 			case 10:
 				ops = append(ops, map[string]any{"op": "fill", "n": 20 + r.IntN(30)})
 			case 0:
